@@ -1,12 +1,14 @@
 /-
-Line-protocol handler for the runner system with unhandled exception classes (C17, runner half):
+Line-protocol handler for the runner system with the failure classes of a unit (C17, runner half):
 
-  rx-trace <nw> <n> <ev₁> … <evₙ>
-      → `<state of RunnerSys.showSys> loop=<0|1>` after every accepted event, separated by ` ; `
-        (stops at the first rejected one, marked `REJ`); `loop=1`: the event-loop thread has ended
+  rx-trace <nw> <n> <ev₁> … <evₙ>        the code as it is (`RunnerSysX.xstep`)
+      → `<state of RunnerSys.showSys> loop=0` after every accepted event, separated by ` ; `
+        (stops at the first rejected one, marked `REJ`)
+  rx-trace-asis <nw> <n> <ev₁> … <evₙ>   the RECORD of the code before the repair (`RunnerSysX.AsIs.xstep`)
+      → the same with `loop=<0|1>` (`1`: the event-loop thread has ended)
 
-Event tokens: those of `rsys-` plus `rb:<w>` (worker `w` resumed with a non-`Exception` exception) and
-`rx:<w>` (… with SystemExit / KeyboardInterrupt).
+Event tokens: those of `rsys-` plus `rf:<w>:<ord|stop|base|exit>:<e>` (worker `w`, awaiting its unit, is resumed
+after the unit function raised an exception of that class with payload `e`).
 -/
 import Infretis.Model.RunnerSysProto
 import Infretis.Model.RunnerSysX
@@ -14,24 +16,44 @@ namespace Infretis.RunnerSysX
 open Infretis.Proto Infretis.RunnerSys
 open Infretis.Runner (b01)
 
+def parseClass? : String → Option FailClass
+  | "ord" => some .ordinary
+  | "stop" => some .stopIter
+  | "base" => some .base
+  | "exit" => some .exit
+  | _ => none
+
 def parseXEv? (t : String) : Option XEv :=
   match t.splitOn ":" with
-  | ["rb", w] => (parseNat? w).map .resumeBase
-  | ["rx", w] => (parseNat? w).map .resumeExit
+  | ["rf", w, c, e] =>
+    match parseNat? w, parseClass? c, parseNat? e with
+    | some w, some c, some e => some (.resumeFail w c e)
+    | _, _, _ => none
   | _ => (parseFEv? t).map .plain
 
-def xtraceGo (x : XSys) : List XEv → List String → List String
+def xtraceGo (s : Sys) : List XEv → List String → List String
   | [], acc => acc.reverse
   | e :: es, acc =>
-    match xstep x e with
+    match xstep s e with
     | none => ("REJ" :: acc).reverse
-    | some (x', _) => xtraceGo x' es ((showSys x'.s ++ s!" loop={b01 x'.loopDead}") :: acc)
+    | some (s', _) => xtraceGo s' es ((showSys s' ++ " loop=0") :: acc)
+
+def xtraceAsIs (x : AsIs.XSys) : List XEv → List String → List String
+  | [], acc => acc.reverse
+  | e :: es, acc =>
+    match AsIs.xstep x e with
+    | none => ("REJ" :: acc).reverse
+    | some (x', _) => xtraceAsIs x' es ((showSys x'.s ++ s!" loop={b01 x'.loopDead}") :: acc)
 
 def handle (toks : List String) : Option String :=
   match toks with
   | "rx-trace" :: nw :: rest =>
     match parseNat? nw, takeList parseXEv? rest with
-    | some nw, some (evs, []) => some (String.intercalate " ; " (xtraceGo (xinit nw) evs []))
+    | some nw, some (evs, []) => some (String.intercalate " ; " (xtraceGo (RunnerSys.init nw) evs []))
+    | _, _ => some "bad-op"
+  | "rx-trace-asis" :: nw :: rest =>
+    match parseNat? nw, takeList parseXEv? rest with
+    | some nw, some (evs, []) => some (String.intercalate " ; " (xtraceAsIs (AsIs.xinit nw) evs []))
     | _, _ => some "bad-op"
   | op :: _ => if op.startsWith "rx-" then some "bad-op" else none
   | [] => none
